@@ -85,7 +85,7 @@ func decodeSubscription(k string, v []byte) (e Subscription, err error) {
 
 	// Decode the key
 	buffer := binary.ToBytes(k)
-	if len(buffer) < 16 {
+	if len(buffer) < 20 { // peer, connection and at least the contract word of the ssid
 		return e, errInvalidKey
 	}
 
